@@ -8,6 +8,7 @@ import (
 	"fmt"
 	"strconv"
 	"strings"
+	"testing/iotest"
 	"time"
 
 	"github.com/foxboron/go-uefi/efi/signature"
@@ -31,7 +32,7 @@ func init() {
 			for i := 0; i < c08Shards; i++ {
 				u = append(u, "mut#"+strconv.Itoa(i))
 			}
-			return u
+			return append(u, "large-entry")
 		},
 		Run: c08Run,
 		Bound: func(tier string) map[string]any {
@@ -56,10 +57,19 @@ func c08Judge(c *hx.Ctx, in []byte, class string, seed []byte) {
 	var err error
 	var uerr error
 	var udb signature.SignatureDatabase
+	readerDep := false
 	if p := hx.Try(func() {
 		db, err = signature.ReadSignatureDatabase(bytes.NewReader(in))
 		// the entry point the efivarfs accessors use
 		uerr = udb.Unmarshal(bytes.NewBuffer(append([]byte{}, in...)))
+		// a reader that hands out its last bytes together with io.EOF, and one that trickles
+		if c.Index()%7 == 0 {
+			d3, e3 := signature.ReadSignatureDatabase(iotest.DataErrReader(bytes.NewReader(in)))
+			d4, e4 := signature.ReadSignatureDatabase(iotest.OneByteReader(bytes.NewReader(in)))
+			if (e3 == nil) != (err == nil) || (e4 == nil) != (err == nil) || (err == nil && (!bytes.Equal(d3.Bytes(), db.Bytes()) || !bytes.Equal(d4.Bytes(), db.Bytes()))) {
+				readerDep = true
+			}
+		}
 	}); p != nil {
 		c.Outcome("panic")
 		c.Violation("C08 decoding ends in "+p.String()+" for "+class, map[string]any{"input": hx8(in), "class": class, "stack": p.Stack})
@@ -67,6 +77,11 @@ func c08Judge(c *hx.Ctx, in []byte, class string, seed []byte) {
 	}
 	if rerr != nil && !bytes.Equal(in, seed) {
 		c.Nontrivial(in)
+	}
+	if readerDep {
+		c.Outcome("verdict-depends-on-read-portions")
+		c.Violation("C08 the accept/reject verdict or the decoded lists depend on how the reader portions the data ("+class+")", map[string]any{"input": hx8(in), "class": class})
+		return
 	}
 	if (err == nil) != (uerr == nil) || (err == nil && !bytes.Equal(db.Bytes(), udb.Bytes())) {
 		c.Outcome("entry-points-disagree")
@@ -138,7 +153,55 @@ var c08OtherTypes = func() []refesl.GUID {
 	return append(out, refesl.MkGUID(0xdeadbeef, 0x1234, 0x5678, [8]byte{1, 2, 3, 4, 5, 6, 7, 8}))
 }()
 
+// c08Large: X.509 lists whose single / last entry is larger than a megabyte (firmware dbx files are
+// that large as a whole): truncations near every size-class boundary and at the end, size fields
+// overstating the data by small and large amounts.
+func c08Large(c *hx.Ctx) {
+	for _, n := range []int{1<<20 + 4096, 3 << 19} {
+		for _, two := range []bool{false, true} {
+			es := []refesl.Entry{{Owner: ownerA, Data: fill(n, 0x3d)}}
+			if two {
+				es = append([]refesl.Entry{{Owner: ownerB, Data: fill(n, 0x17)}}, es...)
+			}
+			seed := refesl.Encode([]refesl.List{refesl.Mk(refesl.SHA256, 48, refesl.Entry{Owner: ownerA, Data: fill(32, 1)}), refesl.Mk(refesl.X509, uint32(16+n), es...)})
+			c.Tick()
+			if c.Next() {
+				c08Judge(c, seed, "large entry, untouched", seed)
+			}
+			for _, cut := range []int{1, 2, 100, 4095, 4096, 4097, 65536, 1 << 19, 1<<20 - 1, 1 << 20, 1<<20 + 1, n - 1} {
+				if cut >= len(seed) || !c.Next() {
+					continue
+				}
+				c08Judge(c, seed[:len(seed)-cut], "truncated stream (large entry)", seed)
+			}
+			off := 76 // second list header
+			for _, d := range []uint32{1, 1000, 4096, 1 << 20} {
+				for _, fld := range []int{16, 24} {
+					if !c.Next() {
+						continue
+					}
+					in := append([]byte{}, seed...)
+					v := binary.LittleEndian.Uint32(in[off+fld:]) + d
+					if fld == 24 && two {
+						v = binary.LittleEndian.Uint32(in[off+fld:]) + d/2 + 1
+					}
+					binary.LittleEndian.PutUint32(in[off+fld:], v)
+					if fld == 24 { // keep ListSize consistent with the enlarged SignatureSize
+						binary.LittleEndian.PutUint32(in[off+16:], 28+v*uint32(len(es)))
+					}
+					c08Judge(c, in, "size field overstating a large entry", seed)
+				}
+			}
+		}
+	}
+	c.Sample(map[string]any{"class": "large entry", "entry_bytes": []int{1<<20 + 4096, 3 << 19}})
+}
+
 func c08Run(c *hx.Ctx, tier, unit string) {
+	if unit == "large-entry" {
+		c08Large(c)
+		return
+	}
 	shard, _ := strconv.Atoi(strings.TrimPrefix(unit, "mut#"))
 	me, pairs := c08Bound(tier)
 	shapes := listShapes(me)
